@@ -2,7 +2,9 @@ package main
 
 import (
 	"fmt"
+	"go/ast"
 	"go/constant"
+	"go/parser"
 	"go/token"
 	"go/types"
 	"math/big"
@@ -102,6 +104,13 @@ func (fc *FCtx) resolveSpecType(name string, pkg *packages.Package) (*Sort, type
 	}
 	tv, err := types.Eval(fc.E.fset, pkg.Types, token.NoPos, name)
 	if err != nil {
+		// composite type expressions mentioning imported packages (map[string]x.T, []*x.T ...): file-level
+		// imports are not in package scope, resolve them structurally
+		if ex, perr := parser.ParseExpr(name); perr == nil {
+			if t := fc.typeFromExpr(ex, pkg); t != nil {
+				return fc.U.SortOf(t), t
+			}
+		}
 		// try imports of the package by name qualifier
 		if k := strings.Index(name, "."); k > 0 {
 			q := name[:k]
@@ -764,6 +773,24 @@ func (fc *FCtx) specCall(n *SNode, env *Env) Val {
 		}
 		s, t := fc.resolveSpecType(name, env.pkg)
 		return Val{T: fc.zeroTerm(s, t), S: s, GoT: t}
+	case "typeis", "unbox":
+		// typeis(x, "T"): the dynamic type of the interface value x is T; unbox(x, "T"): its value as a T
+		x := fc.specEval(n.Args[1], env)
+		if x.S.Kind != KOpaque {
+			oos("spec: %s on a non-interface value (%s)", fn.Name, x.S.Name)
+		}
+		if n.Args[2].Op != "str" {
+			oos("spec: %s needs a quoted type", fn.Name)
+		}
+		_, t := fc.resolveSpecType(n.Args[2].Name, env.pkg)
+		if t == nil {
+			oos("spec: %s: not a Go type: %s", fn.Name, n.Args[2].Name)
+		}
+		if fn.Name == "typeis" {
+			return Val{T: fc.dynTypeIs(x, t), S: SBool}
+		}
+		cs := fc.U.SortOf(t)
+		return Val{T: app(fc.unboxFn(cs, x.S), x.T), S: cs, GoT: t}
 	case "dec":
 		tn := n.Args[1]
 		name := tn.Name
@@ -1070,4 +1097,49 @@ func hasToken(text, id string) bool {
 		}
 		i = end
 	}
+}
+
+// typeFromExpr resolves a Go type expression against a package, looking qualifiers up in the imports of the
+// package's files.
+func (fc *FCtx) typeFromExpr(ex ast.Expr, pkg *packages.Package) types.Type {
+	switch x := ex.(type) {
+	case *ast.Ident:
+		if o := pkg.Types.Scope().Lookup(x.Name); o != nil {
+			if tn, ok := o.(*types.TypeName); ok {
+				return tn.Type()
+			}
+		}
+		if o := types.Universe.Lookup(x.Name); o != nil {
+			if tn, ok := o.(*types.TypeName); ok {
+				return tn.Type()
+			}
+		}
+	case *ast.SelectorExpr:
+		if q, ok := x.X.(*ast.Ident); ok {
+			if imp := fc.importByName(pkg, q.Name); imp != nil {
+				if o := imp.Scope().Lookup(x.Sel.Name); o != nil {
+					if tn, ok := o.(*types.TypeName); ok {
+						return tn.Type()
+					}
+				}
+			}
+		}
+	case *ast.StarExpr:
+		if t := fc.typeFromExpr(x.X, pkg); t != nil {
+			return types.NewPointer(t)
+		}
+	case *ast.ArrayType:
+		if x.Len == nil {
+			if t := fc.typeFromExpr(x.Elt, pkg); t != nil {
+				return types.NewSlice(t)
+			}
+		}
+	case *ast.MapType:
+		k := fc.typeFromExpr(x.Key, pkg)
+		v := fc.typeFromExpr(x.Value, pkg)
+		if k != nil && v != nil {
+			return types.NewMap(k, v)
+		}
+	}
+	return nil
 }
